@@ -702,7 +702,7 @@ def _plan(ctx, seeds, limit):
             cases.append(("delclose", i, k))
         for k in ms.ident_targets(d, toks):
             if ctx.quick():
-                ls = quick_all + (quick_qual if seeds[i][0] == "gen:qualified_types" else ())
+                ls = quick_all + (quick_qual if seeds[i][0][4:] in ms.QUALIFIED_SEEDS else ())
             else:
                 ls = ms.IDENT_LENGTHS
             for ln in ls:
